@@ -264,6 +264,11 @@ local _orig_rawset = rawset
 local _orig_select = select
 local _orig_setmetatable = setmetatable
 local _orig_string = string
+-- The string library table is reachable from every string value through the
+-- string metatable, so it cannot be isolated by cloning the environment;
+-- remember its pristine contents and restore them at every reset.
+local _pristine_string = {}
+for k, v in pairs(string) do _pristine_string[k] = v end
 local _orig_table = table
 local _orig_tonumber = tonumber
 local _orig_type = type
@@ -389,6 +394,16 @@ local function _lua_reset_env()
         difftime = os.difftime,
         time = os.time,
     }
+
+    -- Undo whatever earlier invocations did to the shared string library
+    for k, _ in pairs(_orig_string) do
+        if _pristine_string[k] == nil then
+            _orig_string[k] = nil
+        end
+    end
+    for k, v in pairs(_pristine_string) do
+        _orig_string[k] = v
+    end
 
     -- Cause most packages to be reloaded
     for k, v in pairs(package.loaded) do
